@@ -63,8 +63,8 @@ let in_range z = (match Z.add z big with Zneg _ -> false | _ -> true) && (match 
 
 let () =
   (* C07 plain view: TTML sources are library-written, i.e. inside xml_parse's subset *)
-  Drv_plain.register_plain 4 ttml_dec ttml_enc
-    (fun d -> match xml_parse d with Some t -> doc_time_simple t | None -> false);
+  Drv_plain.register_plain 4 ttml_dec2 ttml_enc
+    (fun d -> match xml_parse2 d with Some t -> doc_time_simple t | None -> false);
   register "ttmlopt" (fun r -> let d = rtdoc r in pint 0; ptdoc (ttml_optimize d));
   register "ttmlrenderex" (fun r ->
     let t = rxnode r in
